@@ -92,6 +92,8 @@ def is_numlike(v):
 
 
 def render_term(v):
+    if isinstance(v, str) and len(v) > 1 and v.startswith("/") and v.endswith("/"):
+        return v
     if isinstance(v, str):
         return '"' + v + '"'
     return repr(v) if not isinstance(v, bool) else str(v)
@@ -685,6 +687,37 @@ class Interp:
         if isinstance(v, float) and math.isnan(v):
             return False
         return str(v).strip() != ""
+
+    # docs/functions/regex.md: regex() "matches within the value"; exact() "True if the regex string is an exact match for the whole of the value"
+    def _regex_args(self, a):
+        pat, val = a[0], a[1]
+        if not (pat[0] == "t" and isinstance(pat[1], str) and pat[1].startswith("/")):
+            pat, val = val, pat
+        import re as _re
+
+        v = self.value(val)
+        if v is None or (isinstance(v, str) and v.strip() == ""):
+            raise Unspecified("regex of an absent/empty value")
+        return _re.compile(pat[1][1:-1]), str(v)
+
+    def m_regex(self, n, q, a):
+        rx, v = self._regex_args(a)
+        return rx.search(v) is not None
+
+    def m_exact(self, n, q, a):
+        rx, v = self._regex_args(a)
+        return rx.fullmatch(v) is not None
+
+    # docs/functions/all.md: "True if all of the values ... contain data"; present = not None and not empty after trimming
+    def m_all(self, n, q, a):
+        if not a:
+            raise Unmodelled("all() without arguments")
+        return all(not is_none(self.value(x)) for x in a)
+
+    def m_missing(self, n, q, a):
+        if not a:
+            raise Unmodelled("missing() without arguments")
+        return not self.m_all(n, q, a)
 
     # strings (docs/functions/string_functions.md)
     def v_concat(self, n, q, a):
